@@ -55,6 +55,26 @@ Theorem C20_sequences : forall cs : list (stmt * path),
 Proof. exact sequences_free. Qed.
 Print Assumptions C20_sequences.
 
+(* the lock OBJECT is never replaced: lock_ok rejects any assignment to self.lock and any re-run of __init__
+   inside a method, so along every path, at every point of the trace, the lock is the one created with the
+   store (lock_gen counts replacements); same for any sequence of calls *)
+Theorem C20_lock_identity_constant : forall m, lock_ok m = true ->
+  forall p pre suf g, evs_of (run AllFaults m p) = pre ++ suf -> lock_gen pre g = g.
+Proof. exact lock_identity_constant. Qed.
+Print Assumptions C20_lock_identity_constant.
+
+Theorem C20_every_method_lock_identity : forall m p pre suf g,
+  In m (map snd (shared_methods ++ disjoint_methods)) ->
+  evs_of (run AllFaults m p) = pre ++ suf -> lock_gen pre g = g.
+Proof. exact method_lock_identity. Qed.
+Print Assumptions C20_every_method_lock_identity.
+
+Theorem C20_sequences_lock_identity : forall cs : list (stmt * path),
+  (forall c, In c cs -> In (fst c) (map snd (shared_methods ++ disjoint_methods))) ->
+  forall pre suf g, run_calls cs = pre ++ suf -> lock_gen pre g = g.
+Proof. exact sequences_identity. Qed.
+Print Assumptions C20_sequences_lock_identity.
+
 (* counter discipline of every regenerated method: counter reads/writes and node-map mutations only while
    holding the lock and in an order that keeps live ids below the counter (data automaton, declared faults) *)
 Theorem C20_all_methods_counter_discipline :
@@ -153,3 +173,12 @@ Example C20_waiting_thread :
   let S := run_sched (init (map (flatten DeclFaults) [[blank_call]; [blank_call]])) [0;0;1]%nat in
   holder S = Some 0%nat /\ step S 1%nat = S /\ unfinished S /\ step S 0%nat <> S.
 Proof. exact waiting_example. Qed.
+
+(* `with self.lock:` is accepted (balanced also on the raising path); re-running __init__ under it is rejected *)
+Example C20_with_form :
+  lock_ok with_del_all = true /\ data_ok CGlobal with_del_all = true /\
+  map ev_code (evs_of (run AllFaults with_del_all [true])) = [(830, 1); (831, 0); (830, 2)] /\
+  out_of (run AllFaults with_del_all [true]) = ORaise /\
+  lock_ok reinit_del_all = false /\ data_ok CGlobal reinit_del_all = false /\
+  lock_gen (evs_of (run AllFaults reinit_del_all [])) 0 = 1.
+Proof. exact with_form_example. Qed.
